@@ -17,6 +17,7 @@ import PgProofs.GenEvoPop
 import PgProofs.GenDedupEvo
 import PgProofs.GenEvoGen
 import PgProofs.GenEvoChunk
+import PgModel.GenOps
 namespace Pg.C15
 
 /-- Generated obligation: the current source has the repaired shape of `Deduping.recover/_replay`
@@ -823,5 +824,74 @@ theorem C15_recover_nsga2 (env : Env) (hq : env.q = Quirks.patched) (seed : Nat)
   obtain ⟨np, nf, pop, si, ini, g, pend, si', ini', g', pend', h1, h2⟩ :=
     C15_recover_evolution env hq (.random seed sd) (Or.inr ⟨seed, sd, rfl⟩) sz run
   exact ⟨pop, by rw [h1]; rfl, by rw [h2]; rfl, _, _, rfl⟩
+
+/-! ### The algorithms pyglove/ext/evolution builds, with the C14 operator model as reproduction / update -/
+
+/-- `regularized_evolution(mutators.Uniform(seed), population_size = n, tournament_size = t, seed)`:
+reproduction `selectors.Random(t) >> selectors.Top(1) >> mutator` and update `selectors.Last(n)` are the
+operator model of C14 (PgModel/Evo.lean) evaluated over the recorded PRNG draws `events` of every `_evolve`
+call (PgModel/GenOps.lean; pipeline text checked by the translator).  For every run and every oracle
+stream the recovered instance has the counters and the population of the uninterrupted one. -/
+theorem C15_recover_regularized_evolution (base : Env) (hq : base.q = Quirks.patched) (dims : List Nat)
+    (n t seed : Nat) (events : Nat → List Pg.C14.Ev) (run : List Event) :
+    ∃ np nf pop si ini g pend si' ini' g' pend',
+      (runLive (Ops.regEvoEnv base dims n t events) (.evolution (.random seed true) (some n)) run).st
+        = .evolution np nf si ini g pop pend
+      ∧ recover (Ops.regEvoEnv base dims n t events) (.evolution (.random seed true) (some n))
+          (setup (.evolution (.random seed true) (some n)))
+          (runLive (Ops.regEvoEnv base dims n t events) (.evolution (.random seed true) (some n)) run).hist
+        = .ok (.evolution np nf si' ini' g' pop pend') :=
+  C15_recover_evolution (Ops.regEvoEnv base dims n t events) hq (.random seed true) (Or.inr ⟨seed, true, rfl⟩)
+    (some n) run
+
+/-- `hill_climb(mutators.Uniform(seed), batch_size = b, init_population_size = k, seed)`:
+reproduction `selectors.Top(1) >> (mutator * b)`, update `selectors.Top(1)`. -/
+theorem C15_recover_hill_climb (base : Env) (hq : base.q = Quirks.patched) (dims : List Nat)
+    (b k seed : Nat) (events : Nat → List Pg.C14.Ev) (run : List Event) :
+    ∃ np nf pop si ini g pend si' ini' g' pend',
+      (runLive (Ops.hillClimbEnv base dims b events) (.evolution (.random seed true) (some k)) run).st
+        = .evolution np nf si ini g pop pend
+      ∧ recover (Ops.hillClimbEnv base dims b events) (.evolution (.random seed true) (some k))
+          (setup (.evolution (.random seed true) (some k)))
+          (runLive (Ops.hillClimbEnv base dims b events) (.evolution (.random seed true) (some k)) run).hist
+        = .ok (.evolution np nf si' ini' g' pop pend') :=
+  C15_recover_evolution (Ops.hillClimbEnv base dims b events) hq (.random seed true) (Or.inr ⟨seed, true, rfl⟩)
+    (some k) run
+
+/-- Deduping over either of them (any hash function, duplicate and attempt limits): outer counters,
+wrapped population and feedback count, de-duplication memory up to the order of rewards per key. -/
+theorem C15_recover_dedup_regularized_evolution (base : Env) (hq : base.q = Quirks.patched) (dims : List Nat)
+    (n t seed hid md ma : Nat) (au : Bool) (events : Nat → List Pg.C14.Ev) (run : List Event) :
+    ∃ np nf pop c c' enp enp' si ini g pend si' ini' g' pend',
+      (runLive (Ops.regEvoEnv base dims n t events)
+          (.deduping (.evolution (.random seed true) (some n)) hid md ma au) run).st
+        = .deduping np nf (.evolution enp nf si ini g pop pend) c
+      ∧ recover (Ops.regEvoEnv base dims n t events) (.deduping (.evolution (.random seed true) (some n)) hid md ma au)
+          (setup (.deduping (.evolution (.random seed true) (some n)) hid md ma au))
+          (runLive (Ops.regEvoEnv base dims n t events)
+            (.deduping (.evolution (.random seed true) (some n)) hid md ma au) run).hist
+        = .ok (.deduping np nf (.evolution enp' nf si' ini' g' pop pend') c')
+      ∧ ∀ k, (cacheGet c k).Perm (cacheGet c' k) :=
+  C15_recover_dedup_evolution (Ops.regEvoEnv base dims n t events) hq (.random seed true)
+    (Or.inr ⟨seed, true, rfl⟩) (some n) hid md ma au run
+
+theorem C15_recover_dedup_hill_climb (base : Env) (hq : base.q = Quirks.patched) (dims : List Nat)
+    (b k seed hid md ma : Nat) (au : Bool) (events : Nat → List Pg.C14.Ev) (run : List Event) :
+    ∃ np nf pop c c' enp enp' si ini g pend si' ini' g' pend',
+      (runLive (Ops.hillClimbEnv base dims b events)
+          (.deduping (.evolution (.random seed true) (some k)) hid md ma au) run).st
+        = .deduping np nf (.evolution enp nf si ini g pop pend) c
+      ∧ recover (Ops.hillClimbEnv base dims b events) (.deduping (.evolution (.random seed true) (some k)) hid md ma au)
+          (setup (.deduping (.evolution (.random seed true) (some k)) hid md ma au))
+          (runLive (Ops.hillClimbEnv base dims b events)
+            (.deduping (.evolution (.random seed true) (some k)) hid md ma au) run).hist
+        = .ok (.deduping np nf (.evolution enp' nf si' ini' g' pop pend') c')
+      ∧ ∀ k', (cacheGet c k').Perm (cacheGet c' k') :=
+  C15_recover_dedup_evolution (Ops.hillClimbEnv base dims b events) hq (.random seed true)
+    (Or.inr ⟨seed, true, rfl⟩) (some k) hid md ma au run
+
+/-! (The operator instantiation is exercised by the correspondence run: every child of every `_evolve` call of
+the real regularized_evolution / hill_climb is recomputed by `Ops.reproOf` from the recorded draws; `mergeSort`
+in the C14 selectors does not reduce in the kernel, so no `decide` example is given here.) -/
 
 end Pg.C15
